@@ -59,7 +59,9 @@ RECURSIVE ApplyEvs(_,_)
 ApplyEvs(o, es) == IF es = <<>> THEN o ELSE ApplyEvs(ApplyEv(o, Head(es)), Tail(es))
 ApplyWin(o, win) ==
   LET o1 == ApplyEvs(ApplyCmd(o, win.cmd, win.skipped), win.done) IN
-  [o1 EXCEPT !.inLen = [i \in 1..NIn |-> win.q.inLen[i]], !.live = win.q.live, !.now = win.q.now]
+  \* (a window of a free run - harness/pipedrv/free.go - recorded while the library was not known to be at rest is not quiet)
+  [o1 EXCEPT !.inLen = [i \in 1..NIn |-> win.q.inLen[i]], !.live = win.q.live, !.now = win.q.now,
+             !.quiet = ~("busy" \in DOMAIN win /\ win.busy)]
 
 Init == ti \in 1..Len(Traces) /\ w = 0 /\ obs = Obs0 /\ ex = {}
 Next == /\ w < Len(Tr.wins)
